@@ -1571,6 +1571,13 @@ def driver_source(specs, status, src_root):
                                'if ((fromJ (argAt args 12)) : List Nat).contains k then Except.error Err.other '
                                'else Except.ok ((((fromJ (argAt args 13)) : List (Nat × Nat)).lookup k))) ' + me.replace("K", "14") + ")")
             continue
+        if spec.get("group") == "MaskRules":
+            imports.append(f"import FinamModel.Translated.{spec['lean']}")
+            me = ("(fun a b g1 g2 => Except.ok (((fromJ (argAt args 5)) : List ((Option Int × Option Int) × (Option Nat × Option Nat)))"
+                  ".contains ((a, b), (g1, g2))))")
+            cases.append('  | "masks_compatible_rules" => toJ (Tr.masks_compatible_rules (fromJ (argAt args 0)) (fromJ (argAt args 1)) '
+                         '(fromJ (argAt args 2)) (fromJ (argAt args 3)) (fromJ (argAt args 4)) ' + me + ")")
+            continue
         if spec.get("group") == "GridCompat":
             # `np.allclose` on two axes: exact equality (the validation uses exactly representable coordinates)
             imports.append(f"import FinamModel.Translated.{spec['lean']}")
